@@ -509,3 +509,9 @@ def str_split(eng, st, node, a, kw, k, ctx):
         st.assume(n >= 0)
     eng.assumption_log.add("str.split returns a list of texts (their number: 1 iff the separator does not occur; contents abstract)")
     return k(st, eng.new_list(st, STR, n, pieces))
+
+
+@external("list.sum")
+def nparray_sum(eng, st, node, a, kw, k, ctx):
+    """arr.sum() of a numpy array (lists and arrays share one sort; a python list has no .sum and is never called this way in the verified sources)"""
+    return np_sum(eng, st, node, a, kw, k, ctx)
